@@ -2,6 +2,7 @@
 import ast
 
 from vt.model import walk_no_nested, norm, dotted_name
+from vt.runner import where
 
 
 def enclosing_function(node):
@@ -190,3 +191,114 @@ def canon_text(node):
         def visit_arg(self, n):
             return n
     return norm(R().visit(copy.deepcopy(node)))
+
+
+# ---------------------------------------------------------------------------------------------------------------------
+# argument/parameter agreement for resolved intra-package calls
+def _bind(call, fn, is_method):
+    """[(param name, arg node)] for the explicit arguments of `call` against the signature of `fn`, or None when the
+    call uses * / ** or does not fit"""
+    params = [a.arg for a in fn.args.args]
+    if is_method and params:
+        params = params[1:]
+    if any(isinstance(a, ast.Starred) for a in call.args) or any(k.arg is None for k in call.keywords):
+        return None
+    out = []
+    for i, a in enumerate(call.args):
+        if i < len(params):
+            out.append((params[i], a))
+        elif fn.args.vararg is None:
+            out.append((None, a))   # too many positional arguments
+    names = set(params) | set(a.arg for a in fn.args.kwonlyargs)
+    for k in call.keywords:
+        out.append((k.arg if (k.arg in names or fn.args.kwarg is None) else '**', k.value))
+    return out
+
+
+def resolved_calls(model, rels):
+    """(module, enclosing class info or None, enclosing function, call, callee owner module, callee fn, is_method)
+    for calls whose callee the source model resolves: self.m(...), Class(...), module-level f(...)"""
+    for rel in rels:
+        mod = model.mod(rel, required=False)
+        if mod is None:
+            continue
+        scopes = [(None, f) for f in mod.functions()]
+        for c in mod.classes():
+            ci = model.cls(rel, c.name)
+            for mname, fn in ci.methods.items():
+                scopes.append((ci, fn))
+        scopes.append((None, mod.tree))
+        for ci, scope in scopes:
+            it = walk_no_nested(scope) if not isinstance(scope, ast.Module) else (
+                n for st in scope.body if not isinstance(st, (ast.FunctionDef, ast.ClassDef)) for n in ast.walk(st))
+            for call in it:
+                if not isinstance(call, ast.Call):
+                    continue
+                f = call.func
+                if ci is not None and isinstance(f, ast.Attribute) and isinstance(f.value, ast.Name) and \
+                        f.value.id == 'self':
+                    o, fn = ci.find_method(f.attr)
+                    if fn is not None and not any(norm(d) in ('staticmethod', 'classmethod') for d in fn.decorator_list):
+                        yield mod, ci, scope, call, o.mod, fn, True
+                    continue
+                if isinstance(f, (ast.Name, ast.Attribute)):
+                    target = None
+                    try:
+                        target = model.resolve_class(mod, f)
+                    except Exception:
+                        target = None
+                    if target is not None:
+                        o, fn = target.find_method('__init__')
+                        if fn is not None:
+                            yield mod, ci, scope, call, o.mod, fn, True
+                        continue
+                    if isinstance(f, ast.Name):
+                        for g in mod.functions():
+                            if g.name == f.id:
+                                yield mod, ci, scope, call, mod, g, False
+                        imp = mod.imports.get(f.id)
+                        if imp and imp[0] == 'symbol':
+                            m2 = model.by_dotted.get(imp[1])
+                            if m2 is not None:
+                                for g in m2.functions():
+                                    if g.name == imp[2]:
+                                        yield mod, ci, scope, call, m2, g, False
+
+
+def argument_agreement(chk, rule, rels, floor=None):
+    """A variable that carries the name of one of the callee's parameters is passed as that parameter, not as a
+    different one; the call supplies no unknown keyword and not more positional arguments than the callee takes."""
+    model = chk.model
+    chk.doc(rule, 'calls resolved inside the package (self.method(...), Class(...), module functions): no unknown '
+                  'keyword argument, no surplus positional argument, and a caller variable named like a parameter of '
+                  'the callee is bound to that parameter and to no other (wrong-slot arguments)')
+    n = 0
+    for mod, ci, scope, call, omod, fn, is_method in resolved_calls(model, rels):
+        b = _bind(call, fn, is_method)
+        if b is None:
+            continue
+        n += 1
+        params = [a.arg for a in fn.args.args][1 if is_method else 0:] + [a.arg for a in fn.args.kwonlyargs]
+        label = '%s->%s' % (getattr(scope, 'name', '<module>'), norm(call.func))
+        for p, a in b:
+            if p is None:
+                chk.ob(rule, '%s/surplus-argument' % label, False, where(mod, call), 'more positional arguments than '
+                       'parameters of %s' % fn.name)
+            elif p == '**':
+                pass
+            elif p not in params and fn.args.kwarg is None:
+                chk.ob(rule, '%s/unknown-keyword %s' % (label, p), False, where(mod, call), '%s() has no parameter %s' % (
+                    fn.name, p))
+        bound = dict((p, a) for p, a in b if p not in (None, '**'))
+        for p, a in bound.items():
+            if isinstance(a, ast.Name) and a.id != p and a.id in params:
+                other = bound.get(a.id)
+                if other is not None and isinstance(other, ast.Name) and other.id == a.id:
+                    continue
+                chk.ob(rule, '%s/%s-as-%s' % (label, a.id, p), False, where(mod, call),
+                       'variable %s is passed as parameter %s although %s() has a parameter named %s (bound to %s)' % (
+                           a.id, p, fn.name, a.id, norm(other) if other is not None else 'its default'))
+        chk.ob(rule, '%s@%d/binding' % (label, call.lineno), True, where(mod, call), '')
+    if floor:
+        chk.floor(rule, floor, 'resolved calls')
+    return n
